@@ -41,7 +41,7 @@ pub(crate) trait Unifier: DerefMut<Target = MachineState> {
             (HeapCellValueTag::Lis, l2) => {
                 if a1 == 2 && n1 == atom!(".") {
                     for idx in (0..2).rev() {
-                        self.pdl.push((heap_loc_as_cell!(s1+1+idx), heap_loc_as_cell!(l2+1+idx)));
+                        self.pdl.push((heap_loc_as_cell!(s1+1+idx), heap_loc_as_cell!(l2+idx)));
                     }
                 } else {
                     self.fail = true;
